@@ -214,3 +214,84 @@ fn k_quoted_string() {
         string_payload,
     );
 }
+
+// ---------------------------------------------------------------------------
+// k_arguments_max  (C03, C05) -- two concrete parameter lists: MAX_ARGS and
+// MAX_ARGS + 1 parameters.
+// ---------------------------------------------------------------------------
+
+/// Replacement for `core::str::from_utf8` in `k_arguments_max` (`-Z stubbing`).
+///
+/// CBMC does not constant-fold the slice iterators of the parser, so every loop
+/// is unwound up to the bound even on concrete input; core's utf-8 validator has
+/// two nested loops and is called once per parameter, which alone exceeds the
+/// time limit.  The stub agrees with the original on ASCII data and ASSERTS that
+/// it only ever sees ASCII data (it cannot hide anything: on other data the
+/// harness fails).
+#[allow(dead_code)]
+fn ascii_only_from_utf8(v: &[u8]) -> Result<&str, Utf8Error> {
+    let mut i = 0;
+    while i < v.len() {
+        assert!(v[i] < 128, "from_utf8 stub: only valid for ASCII data");
+        i += 1;
+    }
+    Ok(unsafe { str::from_utf8_unchecked(v) })
+}
+
+fn is_decimal_digit(v: &Value<'_>, digit: u8) -> bool {
+    match v {
+        Value::Decimal(s) => s.len() == 1 && s.as_bytes()[0] == digit,
+        _ => false,
+    }
+}
+
+/// Entry point is the (private) parameter list parser `arguments`, which is what
+/// `parse` calls after the header.  (`parse` itself on these inputs does not
+/// finish: the header loops are unwound 12 x 12 x 24 times, see README.)
+///
+/// Bound: concrete inputs.  The longest loop is the parameter loop of
+/// `arguments` (10 iterations for 11 parameters); every other loop (white space,
+/// digits, stubbed utf-8 check) runs at most twice; unwind 12.
+#[kani::proof]
+#[kani::unwind(12)]
+#[kani::stub(core::str::from_utf8, ascii_only_from_utf8)]
+fn k_arguments_max() {
+    // exactly MAX_ARGS (10) parameters: accepted, all of them delivered in order,
+    // the terminator is left for the caller
+    let input: &[u8] = b"1,2,3,4,5,6,7,8,9,0\n";
+    let mut args: Vec<Value<'_>, MAX_ARGS> = Vec::new();
+    let result = {
+        let mut parser = arguments(&mut args);
+        parser(input)
+    };
+    match result {
+        Ok((rest, ())) => assert!(same_slice(rest, &input[input.len() - 1..])),
+        Err(_) => panic!("10 parameters must be accepted"),
+    }
+    assert!(MAX_ARGS == 10);
+    assert!(args.len() == 10);
+    assert!(is_decimal_digit(&args[0], b'1'));
+    assert!(is_decimal_digit(&args[1], b'2'));
+    assert!(is_decimal_digit(&args[2], b'3'));
+    assert!(is_decimal_digit(&args[3], b'4'));
+    assert!(is_decimal_digit(&args[4], b'5'));
+    assert!(is_decimal_digit(&args[5], b'6'));
+    assert!(is_decimal_digit(&args[6], b'7'));
+    assert!(is_decimal_digit(&args[7], b'8'));
+    assert!(is_decimal_digit(&args[8], b'9'));
+    assert!(is_decimal_digit(&args[9], b'0'));
+
+    // MAX_ARGS + 1 parameters: an error (not Incomplete), no panic, and no
+    // silent truncation to the first 10
+    let input: &[u8] = b"1,2,3,4,5,6,7,8,9,0,1\n";
+    let mut args: Vec<Value<'_>, MAX_ARGS> = Vec::new();
+    let result = {
+        let mut parser = arguments(&mut args);
+        parser(input)
+    };
+    match result {
+        Ok(_) => panic!("11 parameters accepted (silently truncated?)"),
+        Err(ParseError::Incomplete) => panic!("11 parameters reported as Incomplete"),
+        Err(_) => {}
+    }
+}
